@@ -52,7 +52,10 @@ func (h *NTLMAuth) Authenticate(message *auth.NtlmRequest) (*auth.NtlmResponse, 
 	c := h.getContext(message.Session)
 	err := c.Authenticate(message.NtlmMessage, r)
 
-	if err != nil || r.Authenticated {
+	// a context serves one authenticate attempt only: the server session caches the
+	// response keys of the first user it verified, so reusing it after a failed
+	// attempt would check the next user's proof against the previous user's password
+	if err != nil || r.Authenticated || r.NtlmMessage == "" {
 		h.removeContext(message.Session)
 	}
 
